@@ -94,6 +94,13 @@ def jobs(tier, seed):
                 structs += mc.sample_datasets(4, 3, 2, 30, rnd)
             for ci in range(0, len(structs), 12):
                 js.append({"id": f"{where}-{name}-{ci // 12}", "kind": where, "moment": name, "structs": structs[ci:ci + 12]})
+    # the generic UtilityParity with user-supplied (symbolic) utilities and events: the public base class of the five parity moments
+    for n in (2, 3):
+        for g in core.rgs(n, 2):
+            if len(set(g)) < 2:
+                continue
+            for ev in core.rgs(n, 2):
+                js.append({"id": f"custom-n{n}-{''.join(map(str, g))}-{''.join(map(str, ev))}", "kind": "custom", "groups": list(g), "events": list(ev)})
     for n in (1, 2, 3) if tier == "quick" else (1, 2, 3, 4):
         import itertools as _it
         for yv in _it.product([0, 1], repeat=n):
@@ -103,7 +110,7 @@ def jobs(tier, seed):
             for g in core.rgs(n, 3):
                 js.append({"id": f"bgl-{loss}-n{n}-{''.join(map(str, g))}", "kind": "bgl", "loss": loss, "groups": list(g),
                            "y": [rnd.choice([-0.5, 0.0, 0.25, 0.5, 1.0, 1.5]) for _ in range(n)]})
-    js.sort(key=lambda j: {"bgl": 0, "errobj": 1, "ident": 2}.get(j["kind"], 3))  # cheap identity jobs first, the pairwise order jobs last
+    js.sort(key=lambda j: {"bgl": 0, "errobj": 1, "custom": 1, "ident": 2}.get(j["kind"], 3))  # cheap identity jobs first, the pairwise order jobs last
     return js
 
 
@@ -125,12 +132,16 @@ def _dot(a, b):
 
 
 def run_job(job, deadline):
+    mc.set_group_order(job["id"])
     acc = JobAcc(job)
     if job["kind"] == "bgl":
         _bgl(acc, job, deadline)
         return acc.result()
     if job["kind"] == "errobj":
         _errobj(acc, job, deadline)
+        return acc.result()
+    if job["kind"] == "custom":
+        _custom(acc, job, deadline)
         return acc.result()
     for si, (y, groups, ctrl) in enumerate(job["structs"]):
         if job["kind"] == "ident":
@@ -270,6 +281,41 @@ def _reduction(acc, job, si, y, groups, ctrl, deadline):
     acc.explore(run, on_ok, deadline=deadline, max_paths=4096, record_funcs=(si == 0))
 
 
+def _custom_moment(groups, events, U):
+    import fairlearn.reductions as red
+
+    n = len(groups)
+    m = red.UtilityParity(difference_bound=0.1)
+    X = pd.DataFrame({"f": list(range(n))})
+    m.load_data(X, pd.Series([i % 2 for i in range(n)]), sensitive_features=pd.Series([mc.GROUP_NAMES[g] for g in groups]),
+                event=pd.Series([f"e{e}" for e in events]), utilities=U)
+    return m
+
+
+def _custom(acc, job, deadline):
+    groups, events = job["groups"], job["events"]
+    n = len(groups)
+    ex = {"groups": groups, "events": events}
+
+    def run():
+        U = np.array([[real(f"u{i}_0", -3, 5), real(f"u{i}_1", -3, 5)] for i in range(n)], dtype=object)
+        h = np.array([real(f"h{i}", 0, 1) for i in range(n)], dtype=object)
+        h2 = np.array([real(f"k{i}", 0, 1) for i in range(n)], dtype=object)
+        m = _custom_moment(groups, events, U)
+        lam = _lam(m)
+        return m, h, h2, lam, m.signed_weights(lam), m.gamma(lambda X: h), m.gamma(lambda X: h2)
+
+    def on_ok(ctx, out):
+        m, h, h2, lam, w, g1, g2 = out
+        acc.reach(ctx)
+        lhs = _dot(lam, g1) - _dot(lam, g2)
+        rhs = -core.zsum([term(w.iloc[i]) * (term(h[i]) - term(h2[i])) for i in range(n)]) / n
+        acc.check(ctx, "custom_utilities_reweighting_is_lagrangian_gradient", lhs == rhs, signature="ident:UtilityParity:custom_utilities", extra=ex)
+        acc.canary(ctx, "canary_custom", lhs == rhs + 1)
+
+    acc.explore(run, on_ok, deadline=deadline, max_paths=300)
+
+
 def _errobj(acc, job, deadline):
     import fairlearn.reductions as red
 
@@ -348,6 +394,7 @@ def replay(cex):
     import fairlearn.reductions._grid_search.grid_search as gs
 
     job, mdl, ex = cex["job"], cex["model"], cex["extra"]
+    mc.set_group_order(job["id"])
     f = lambda k, d="0": float(F(mdl.get(k, d)))
     bad = []
     if job["kind"] == "bgl":
@@ -367,6 +414,18 @@ def replay(cex):
         if abs(lhs - rhs) > 1e-9 * max(1, abs(lhs)):
             bad.append(f"lambda.gamma={lhs} vs (1/n) sum w*loss={rhs}")
         return {"reproduced": bool(bad), "detail": "; ".join(bad) + f" | {ex} h={h} lam={list(lam)}"}
+    if job["kind"] == "custom":
+        groups, events = job["groups"], job["events"]
+        n = len(groups)
+        U = np.array([[f(f"u{i}_0"), f(f"u{i}_1")] for i in range(n)])
+        h, h2 = np.array([f(f"h{i}") for i in range(n)]), np.array([f(f"k{i}") for i in range(n)])
+        m = _custom_moment(groups, events, U)
+        lam = pd.Series([f(f"l{j}") for j in range(len(m.index))], index=m.index)
+        w = m.signed_weights(lam)
+        lhs = float((lam * m.gamma(lambda X: h)).sum() - (lam * m.gamma(lambda X: h2)).sum())
+        rhs = -float(sum(w.iloc[i] * (h[i] - h2[i]) for i in range(n))) / n
+        bad = [] if abs(lhs - rhs) <= 1e-9 * max(1, abs(lhs)) else [f"UtilityParity with utilities {U.tolist()}: lambda.(gamma(h)-gamma(h'))={lhs} but -(1/n)sum w(h-h')={rhs}"]
+        return {"reproduced": bool(bad), "detail": "; ".join(bad) + f" | h={h.tolist()} h'={h2.tolist()} lam={list(lam)}"}
     y, groups, ctrl = ex["y"], ex["groups"], ex.get("ctrl")
     n, name = len(y), job.get("moment")
     if job["kind"] == "errobj":
